@@ -94,8 +94,14 @@ fn fx_to_f64(v: i128) -> f64 {
 /// judge a computed value against the exact sum; `n` terms, `sabs` = exact sum |x|
 #[allow(clippy::too_many_arguments)]
 fn judge_value<F: K>(sub: &str, got: F, exact: i128, sabs: i128, n: u64, descr: &dyn Fn() -> String, case: &dyn Fn() -> Value, s: &mut Sink) {
+    judge_value_s::<F>(sub, got, exact, sabs, n, 0, descr, case, s)
+}
+
+/// `shift`: the exact sums are in units of 2^(shift - SCALE) (streams at small / large magnitude)
+#[allow(clippy::too_many_arguments)]
+fn judge_value_s<F: K>(sub: &str, got: F, exact: i128, sabs: i128, n: u64, shift: i32, descr: &dyn Fn() -> String, case: &dyn Fn() -> Value, s: &mut Sink) {
     s.evals += 1;
-    let g = got.f();
+    let g = got.f() * 2f64.powi(-shift);
     if !g.is_finite() {
         s.skipped += 1; // partial sums overflowed the type
         return;
@@ -362,8 +368,13 @@ fn balanced<F: K>(runs: &[(F, u64)], leaf: u64, calls: &mut u64) -> KahanSum<F> 
 fn judge_long<F: K>(runs_f: &[(f64, u64)], s: &mut Sink) {
     let runs: Vec<(F, u64)> = runs_f.iter().map(|&(v, r)| (F::of(if v.abs() == 1048576.0 { v.signum() * F::BIG } else { v }), r)).collect();
     let n: u64 = runs.iter().map(|r| r.1).sum();
-    let exact: i128 = runs.iter().map(|&(v, r)| fx(v.f()) * r as i128).sum();
-    let sabs: i128 = runs.iter().map(|&(v, r)| fx(v.f()).abs() * r as i128).sum();
+    // magnitude shift: the smallest non-zero term is brought to about 2^-10
+    let minv = runs.iter().map(|r| r.0.f().abs()).filter(|v| *v > 0.0).fold(f64::INFINITY, f64::min);
+    let shift = if minv.is_finite() { (minv.log2().floor() as i32 + 10).clamp(-900, 900) } else { 0 };
+    let shift = if (-12..=12).contains(&shift) { 0 } else { shift };
+    let sc = 2f64.powi(-shift);
+    let exact: i128 = runs.iter().map(|&(v, r)| fx(v.f() * sc) * r as i128).sum();
+    let sabs: i128 = runs.iter().map(|&(v, r)| fx(v.f() * sc).abs() * r as i128).sum();
     let case = |feed: &str| json!({"check":"L","type":F::NAME,"runs":runs_f,"feed":feed});
     let d = |feed: &str| format!("{} runs {:?} (n = {n}) {feed}", F::NAME, runs.iter().map(|r| (r.0.f(), r.1)).collect::<Vec<_>>());
     // value by value
@@ -374,7 +385,7 @@ fn judge_long<F: K>(runs_f: &[(f64, u64)], s: &mut Sink) {
         }
     }
     s.calls += n;
-    judge_value::<F>("L", k.value(), exact, sabs, n, &|| d("value by value"), &|| case("values"), s);
+    judge_value_s::<F>("L", k.value(), exact, sabs, n, shift, &|| d("value by value"), &|| case("values"), s);
     // left-fold chain of merges of registers of g consecutive elements
     for g in [1u64, 2, 3] {
         let mut acc = KahanSum::<F>::default();
@@ -395,7 +406,7 @@ fn judge_long<F: K>(runs_f: &[(f64, u64)], s: &mut Sink) {
             acc += cur;
         }
         s.calls += n + n / g;
-        judge_value::<F>("L-chain", acc.value(), exact, sabs, n, &|| d(&format!("as a left-fold chain of {g}-element registers")), &|| case(&format!("chain{g}")), s);
+        judge_value_s::<F>("L-chain", acc.value(), exact, sabs, n, shift, &|| d(&format!("as a left-fold chain of {g}-element registers")), &|| case(&format!("chain{g}")), s);
     }
     // right-fold chain: {x0} += ({x1} += ({x2} += ...)): every merge has a multi-element,
     // compensation-carrying right-hand side
@@ -414,13 +425,13 @@ fn judge_long<F: K>(runs_f: &[(f64, u64)], s: &mut Sink) {
             }
         }
         s.calls += 2 * n;
-        judge_value::<F>("L-rchain", acc.value(), exact, sabs, n, &|| d("as a right-fold chain of merges"), &|| case("rchain"), s);
+        judge_value_s::<F>("L-rchain", acc.value(), exact, sabs, n, shift, &|| d("as a right-fold chain of merges"), &|| case("rchain"), s);
     }
     // balanced reduction over 2-element leaves
     let mut calls = 0;
     let b = balanced::<F>(&runs, 2, &mut calls);
     s.calls += n + calls;
-    judge_value::<F>("L-tree", b.value(), exact, sabs, n, &|| d("as a balanced tree of 2-element registers"), &|| case("tree"), s);
+    judge_value_s::<F>("L-tree", b.value(), exact, sabs, n, shift, &|| d("as a balanced tree of 2-element registers"), &|| case("tree"), s);
 }
 
 /// (A) statistics built on the registers: mean * n and the variance inherit the bound
@@ -535,6 +546,17 @@ fn run(tier: Tier) -> Sink {
     for p in long_patterns(tier, true) {
         jobs.push(Job::Long(p.clone(), 2));
         jobs.push(Job::Long(p, 3));
+    }
+    // the same stream shapes at small and large magnitude (exact power-of-two scalings):
+    // the bound is relative, so nothing may depend on the absolute size of the terms
+    for p in long_patterns(Tier::Quick, false) {
+        let n: u64 = p.iter().map(|r| r.1).sum();
+        if n < 1_000 || n > 120_000 || p.iter().any(|r| r.0.abs() >= 1048576.0) {
+            continue;
+        }
+        for (ty, e) in [(0u8, -40), (0, 30), (1, -30), (1, 20)] {
+            jobs.push(Job::Long(p.iter().map(|&(v, r)| (v * 2f64.powi(e), r)).collect(), ty));
+        }
     }
     // longest first
     jobs.sort_by_key(|j| match j {
